@@ -8,6 +8,7 @@
 // verif:encode github.com/zoumo/golib/lock/maxinflight
 // verif:init github.com/zoumo/golib/lock/maxinflight
 // verif:init golang.org/x/time/rate
+// verif:sched k8s.io/client-go/util/flowcontrol
 // verif:opt unwind=12 witnesses=6 timeout=10000/120000 budget=400/3000
 
 package flowcontrol
